@@ -156,11 +156,12 @@ def exc_class(exc):
 
 
 def opt(v):
-    return "None" if v is None else "s" + hxs(v)
+    # (whatever type the parser keeps a field in - text or number - it is compared by its text)
+    return "None" if v is None else "s" + hxs(v if isinstance(v, str) else str(v))
 
 
 def tup(t):
-    return "(" + ",".join(hxs(x) for x in t) + ")"
+    return "(" + ",".join(hxs(x if isinstance(x, str) else str(x)) for x in t) + ")"
 
 
 def canon_snap(s):
